@@ -1227,6 +1227,8 @@ struct QueH
                     std::string why = std::string("allocation request #") + std::to_string(k) + (from ? " and all later ones fail" : " fails") + " during " + op_str(o) + " on " + key_str(key) + ": ";
                     std::string where = std::string(k == 0 ? "first" : "later") + "-request";
                     if (!reported) { ck.fail("failure-not-reported", "the operation did not report the failure through its return value"); }
+                    // the queue "still holds exactly its previous contents": no element may have been handed to the destructor
+                    if (ck.ok() && !dtor_log.empty()) { ck.fail("destroyed-on-failure", "the failed operation ran the element destructor " + std::to_string(dtor_log.size()) + " time(s) although it reports that nothing was done"); }
                     if (ck.ok())
                     {
                         L.m = before;
